@@ -49,11 +49,11 @@ CHECKS = {
              note='-nomain selections demand nothing natively; CLI json output not compared', ref='§6 C18'),
 
  'C19': dict(engine='P', technique='exhaustive product go-statement form x recovery form; generator facts validated by one native process run per cell (crash trace of the panicking goroutine)',
-             text='All 10 go-statement forms x 9 recovery forms: the entry function must be reported with a creation site whenever it does not itself defer a function that calls recover; each cell is also executed natively in its own process and the crash trace (or survival) validates the generator fact; an unrelated -exclude entry must not change the report.',
+             text='All 10 go-statement forms x 10 recovery forms: the entry function must be reported with a creation site whenever it does not itself defer a function that calls recover; each cell is also executed natively in its own process and the crash trace (or survival) validates the generator fact; an unrelated -exclude entry must not change the report.',
              note='main package only; spurious reports not judged', ref='§6 C19'),
 
  'C20': dict(engine='S', technique='stateless DFS over schedules of the real (mechanically rewritten) code under a controlled scheduler with iterative preemption bounding',
-             text='lib/build-sched.sh rewrites the concurrency constructs of the current sources onto the vsched shims and links the rewritten MapParallel into the worker; every interleaving up to the preemption bound (and the unbounded space for the smallest cases) is executed for all slice lengths / worker counts: result equals the sequential map in input order, f invoked exactly once per element, no deadlock, leak or panic. (b)-(d): the whole taint analysis (three initialisation goroutines, parallel summary pass, report writer) runs under the scheduler for all 16 subsets of report options x eager/on-demand with vector-clock race probes on every map read/write: no unordered conflicting map access, no deadlock/leak, summaries report complete at the moment Analyze returns.',
+             text='lib/build-sched.sh rewrites the concurrency constructs of the current sources onto the vsched shims and links the rewritten MapParallel into the worker; every interleaving up to the preemption bound (and the unbounded space for the smallest cases) is executed for slice lengths <=3 and worker counts <=3, and large lengths around powers of two (up to 8210, thorough 65537) run under the canonical schedule: result equals the sequential map in input order, f invoked exactly once per element, no deadlock, leak or panic. (b)-(d): the whole taint analysis (three initialisation goroutines, parallel summary pass, report writer) runs under the scheduler for all 16 subsets of report options x eager/on-demand with vector-clock race probes on every map read/write: no unordered conflicting map access, no deadlock/leak, summaries report complete at the moment Analyze returns.',
              note='race probes on map reads/writes only (struct fields, slice elements not probed); whole-analysis exploration capped per option set; sequentially consistent scheduler', ref='§6 C20'),
 
  'C15': dict(engine='L', technique='explicit-state BFS over escape graphs built with the real AddEdge/MergeNodeStatus (lattice laws on all pairs/triples), enumerated weakenings for monotonicity of the real transfer function, explicit-state search over all worklist orders of the real ProcessBlock',
@@ -68,7 +68,7 @@ CHECKS = {
              note='observed sharing, not reachability (weaker, one-sided); arbitrary contexts only', ref='§6 C14'),
 
  'C11': dict(engine='P', technique='bounded-exhaustive enumeration of pointer-operation sequences + exhaustive native execution with object-identity probes vs points-to queries of the real pointer analysis',
-             text='Every sequence of <=2 (thorough <=3) operations over a 20-operation pointer alphabet, all valuations: probes of the same static type that saw the same object in one execution must MayAlias, and the marked allocation of a probed object must be a label of its points-to set.',
+             text='Every sequence of <=2 (thorough <=3) operations over a 35-operation pointer alphabet, all valuations: probes of the same static type that saw the same object in one execution must MayAlias, and the marked allocation of a probed object must be a label of its points-to set.',
              note='values without a registered query are not judged (counted); small-scope bound', ref='§6 C11'),
 
  'C04': dict(engine='P', technique='exhaustive product role x call form x specification pattern vector with decoy sites; independent reference matcher (plain regexp on generator facts) vs the roles the real analysis assigns',
